@@ -20,9 +20,10 @@ structure NackBuf where
   packets : List (UInt16 × Nat)       -- the HashMap seq → packet(tag)
   recent : List (UInt16 × Nat)        -- `recent_resends`: seq → time of last accepted resend (ms)
   rtxSsrc : UInt32 := 0               -- `rtx_ssrc_fast`: 0 = RTX disabled
+  rtxCtr : UInt16 := 0                -- `rtx_seq` (random start in the code; relative here)
   deriving Repr
 
-def NackBuf.new (maxSize : Nat) : NackBuf := ⟨max maxSize 1, [], [], [], 0⟩
+def NackBuf.new (maxSize : Nat) : NackBuf := ⟨max maxSize 1, [], [], [], 0, 0⟩
 
 def mapGet : List (UInt16 × Nat) → UInt16 → Option Nat
   | [], _ => none
@@ -46,7 +47,8 @@ def NackBuf.push (b : NackBuf) (seq : UInt16) (tag : Nat) : NackBuf :=
     let r := evict b.maxSize (b.order ++ [seq]) (mapSet b.packets seq tag)
     { b with order := r.1, packets := r.2 }
 
-def cooldownMs : Nat := 25
+/-- `NACK_RESEND_COOLDOWN` in milliseconds -/
+def cooldownMs : Nat := c15CooldownMs
 
 /-- the selection loop of `packets_for_nack` -/
 def selectLoop (pk : List (UInt16 × Nat)) (now : Nat) :
@@ -67,16 +69,33 @@ def selectLoop (pk : List (UInt16 × Nat)) (now : Nat) :
         | some t => selectLoop pk now rest seen (mapSet recent s now) ((s, t) :: out)
         | none => selectLoop pk now rest seen recent out
 
+/-- `packets_for_nack`: the selection loop, then the cooldown map is pruned once it outgrows twice the
+buffer size (entries older than the cooldown are dropped) -/
+def NackBuf.select (b : NackBuf) (now : Nat) (seqs : List UInt16) : List (UInt16 × Nat) × List (UInt16 × Nat) :=
+  let r := selectLoop b.packets now seqs [] b.recent []
+  let recent := if r.2.length > b.maxSize * c15RecentFactor then r.2.filter (fun e => now - e.2 < cooldownMs) else r.2
+  (r.1, recent)
+
+/-- the retransmission loop of `on_rtcp_received`: with RTX enabled every resent packet is wrapped with the
+next RTX sequence number -/
+def respondRtx (rtx : Bool) (ctr : UInt16) : List (UInt16 × Nat) → List (UInt16 × Nat × Option UInt16) × UInt16
+  | [] => ([], ctr)
+  | (s, t) :: rest =>
+    if rtx then let r := respondRtx rtx (ctr + 1) rest; ((s, t, some ctr) :: r.1, r.2)
+    else let r := respondRtx rtx ctr rest; ((s, t, none) :: r.1, r.2)
+
 inductive BufOp where
   | push (seq : UInt16) (tag : Nat)
   | sent (ssrc : UInt32) (seq : UInt16) (tag : Nat)   -- `on_packet_sent` of a packet with this SSRC
   | setRtx (ssrc : UInt32)                            -- `set_rtx(Some{rtx_ssrc}) / set_rtx(None)` (0)
   | query (now : Nat) (seqs : List UInt16)
+  | nack (now : Nat) (seqs : List UInt16)             -- `on_rtcp_received(GenericNack)`
   deriving Repr
 
 inductive BufOut where
   | len (n : Nat)
   | got (xs : List (UInt16 × Nat))
+  | resent (xs : List (UInt16 × Nat × Option UInt16))
   deriving Repr
 
 def NackBuf.step (b : NackBuf) : BufOp → NackBuf × BufOut
@@ -87,8 +106,12 @@ def NackBuf.step (b : NackBuf) : BufOp → NackBuf × BufOut
     (b', .len b'.packets.length)
   | .setRtx ssrc => ({ b with rtxSsrc := ssrc }, .len b.packets.length)
   | .query now seqs =>
-    let r := selectLoop b.packets now seqs [] b.recent []
+    let r := b.select now seqs
     ({ b with recent := r.2 }, .got r.1)
+  | .nack now seqs =>
+    let r := b.select now seqs
+    let w := respondRtx (b.rtxSsrc != 0) b.rtxCtr r.1
+    ({ b with recent := r.2, rtxCtr := w.2 }, .resent w.1)
 
 /-- state after a sequence of operations -/
 def bufFinal (b : NackBuf) : List BufOp → NackBuf
@@ -106,9 +129,13 @@ structure GapSt where
   lastSsrc : UInt32
   initialized : Bool
   pending : List UInt16
+  /-- the pending set once outgrew `2 * MAX_RECEIVER_NACK_GAP`: the code then drops `len - MAX_RECEIVER_NACK_GAP`
+  entries in `HashSet` iteration order — WHICH ones is unspecified, so from here on only the size of the set
+  is claimed (the list below keeps the newest entries as a placeholder) -/
+  overflowed : Bool := false
   deriving Repr
 
-def GapSt.init : GapSt := ⟨0, 0, false, []⟩
+def GapSt.init : GapSt := ⟨0, 0, false, [], false⟩
 
 /-- `lost`: the sequence numbers `first, first+1, …` (`n` of them, wrapping) -/
 def seqRun (first : UInt16) : Nat → List UInt16
@@ -130,13 +157,16 @@ def GapSt.step (st : GapSt) (ssrc : UInt32) (seq : UInt16) : GapSt × Option (Li
       let skip := gap - c15MaxReceiverNackGap                      -- saturating_sub
       let first := st.lastSeq + 1 + UInt16.ofNat skip
       let lost := seqRun first (gap - skip)
-      ({ st with lastSeq := seq, pending := st.pending ++ lost.filter (fun x => !st.pending.contains x) },
-       some lost)
+      let np := st.pending ++ lost.filter (fun x => !st.pending.contains x)
+      if np.length > c15MaxReceiverNackGap * c15PendingFactor then
+        ({ st with lastSeq := seq, pending := np.drop (np.length - c15MaxReceiverNackGap), overflowed := true }, some lost)
+      else ({ st with lastSeq := seq, pending := np }, some lost)
     else if diff < c15GapHalf then ({ st with lastSeq := seq }, none)
     else (st, none)
 
-def gapRun (st : GapSt) : List (UInt32 × UInt16) → List (Option (List UInt16))
+/-- per packet: the NACK list (if any) and the size of the pending set afterwards -/
+def gapRun (st : GapSt) : List (UInt32 × UInt16) → List (Option (List UInt16) × Nat)
   | [] => []
-  | (a, q) :: rest => let r := st.step a q; r.2 :: gapRun r.1 rest
+  | (a, q) :: rest => let r := st.step a q; (r.2, r.1.pending.length) :: gapRun r.1 rest
 
 end RtcModel.C15
